@@ -220,6 +220,7 @@ func genWord(t *rapid.T, w int, label string) uint64 {
 
 var curveGadgets = []string{
 	"cmp.IsLess", "cmp.IsLessOrEqual", "cmp.IsEqual", "cmp.IsLessBinary", "cmp.IsLessOrEqualBinary",
+	"cmp.IsLess.const", "cmp.IsLessOrEqual.const",
 	"bc.AssertIsLess", "bc.AssertIsLessEq", "bc.IsLess", "bc.IsLessEq", "bc.Min",
 	"bc.IsLess", "bc.IsLessEq", "bc.Min",
 	"sel.Mux", "sel.Map", "sel.BinaryMux", "sel.KeyDecoder", "sel.Decoder", "sel.Slice", "sel.Partition",
@@ -259,6 +260,11 @@ func genGadgetCase(t *rapid.T, g, field string, q *big.Int) Case {
 	case "cmp.IsLess", "cmp.IsLessOrEqual", "cmp.IsEqual":
 		a, b := genPair(t, q)
 		c.In = dec(a, b)
+	case "cmp.IsLess.const", "cmp.IsLessOrEqual.const", "cmp.IsEqual.const":
+		a, b := genPair(t, q)
+		c.P = []int{rapid.IntRange(0, 1).Draw(t, "const-side")}
+		c.Bound = b.String()
+		c.In = dec(a)
 	case "cmp.IsLessBinary", "cmp.IsLessOrEqualBinary":
 		n := rapid.SampledFrom([]int{1, 2, 3, 8, 64, q.BitLen() - 3, q.BitLen() - 2, q.BitLen() - 1, q.BitLen(), q.BitLen() + 1, q.BitLen() + 6}).Draw(t, "nbits")
 		a := make([]*big.Int, 2*n)
